@@ -689,6 +689,11 @@ type Manager struct {
 	updates chan uint64
 	pgp     *pgxpool.Pool
 	conf    config.Root
+
+	// guards restart (the field and closing the channel) and waiting
+	restartMut sync.Mutex
+	// number of Restart calls whose Run has not yet taken over
+	waiting int
 }
 
 func NewManager(ctx context.Context, pgp *pgxpool.Pool, conf config.Root) *Manager {
@@ -738,9 +743,17 @@ func (tm *Manager) runTask(t *Task) {
 // Ensures all running tasks stop
 // and calls [Manager.Run] in a new go routine.
 func (tm *Manager) Restart() error {
-	close(tm.restart)
+	tm.restartMut.Lock()
+	tm.waiting++
+	select {
+	case <-tm.restart:
+		// already closed by a Restart that is still waiting
+	default:
+		close(tm.restart)
+	}
+	tm.restartMut.Unlock()
 	ec := make(chan error)
-	go tm.Run(ec)
+	go tm.run(ec, true)
 	return <-ec
 }
 
@@ -751,8 +764,26 @@ func (tm *Manager) Restart() error {
 // Acquires a lock to ensure only on routine is running.
 // Releases lock on return
 func (tm *Manager) Run(ec chan error) {
+	tm.run(ec, false)
+}
+
+func (tm *Manager) run(ec chan error, restarted bool) {
 	tm.running.Lock()
 	defer tm.running.Unlock()
+
+	// This generation gets its own restart channel before anything
+	// else happens so that a Restart arriving from now on stops it.
+	// If other Restarts are already waiting for the lock, the tasks
+	// loaded below must make way for them at once.
+	tm.restartMut.Lock()
+	if restarted {
+		tm.waiting--
+	}
+	tm.restart = make(chan struct{})
+	if tm.waiting > 0 {
+		close(tm.restart)
+	}
+	tm.restartMut.Unlock()
 
 	var err error
 	tm.tasks, err = loadTasks(tm.ctx, tm.pgp, tm.conf)
@@ -762,7 +793,6 @@ func (tm *Manager) Run(ec chan error) {
 	}
 	close(ec)
 
-	tm.restart = make(chan struct{})
 	var wg sync.WaitGroup
 	for i := range tm.tasks {
 		i := i
